@@ -321,8 +321,31 @@ def r5(ctx, r):
             else:
                 conj.append(show(n))
         flat(rv[0]["init"])
+        # probes: methods of the client that ask the transport, without waiting, whether anything is there (zero-timeout receiveSync)
+        def probe_summary(g):
+            rc = [x for x in g.nodes.values() if x.get("k") == "mcall" and last(x.get("callee", "")) == "receiveSync" and "Transport" in x.get("callee", "")]
+            if len(rc) != 1:
+                return None
+            tcs = [const_value(y) for y in walk(unwrap(rc[0]["args"][-1])) if y.get("k") == "int"]
+            if tcs != [0]:
+                return None
+            rets = common.returns(g)
+            txt = " ".join(show(e.node) for e in rets)
+            # 'pending' form: true unless Timeout ; 'quiet' form: true only for Timeout
+            if "isOk()" in txt and "!=" in txt and "Timeout" in txt:
+                return "pending"
+            if "isErr()" in txt and "==" in txt and "Timeout" in txt:
+                return "quiet"
+            return "unknown"
+        probes = {g.name: probe_summary(g) for g in ctx.fb().methods_of(HC) if g.ok and probe_summary(g)}
+        ctx._c17_probes = probes
+
+        def no_pending(c):
+            m = [n_ for n_, k_ in probes.items() if last(n_) + "(" in c]
+            return bool(m) and ((probes[m[0]] == "pending" and c.startswith("!")) or (probes[m[0]] == "quiet" and not c.startswith("!")))
         need = {"reuse switch": lambda c: c == "_config.reuseConnections", "no close signal": lambda c: c.startswith("!responseRequestsClose("), "no surplus bytes": lambda c: c == "!forceEvict",
-                "not close-delimited": lambda c: "framing.mode != " in c and "CloseDelimited" in c}
+                "not close-delimited": lambda c: "framing.mode != " in c and "CloseDelimited" in c,
+                "nothing pending in the transport (bytes behind a message that ended exactly at a read boundary never reach the surplus test)": no_pending}
         for k, pred in need.items():
             r.instance()
             r.expect(any(pred(c) for c in conj), e_, None, "reuse without: %s" % k, "the connection is kept for reuse without the conjunct '%s' (conjuncts: %s): a connection that saw a close signal / surplus bytes / a close-delimited body serves a later request"
@@ -409,10 +432,15 @@ def r7(ctx, r):
                     ok = bool(defs) and all("_config." in show(x) and "imeout" in show(x) for x in defs)
                 elif "_config." in src and "imeout" in src:
                     ok = True
+                # a compile-time constant is a bound as well; zero is a poll (returns at once: nothing to wait for)
+                tc = [const_value(x) for x in walk(targ) if x.get("k") == "int"]
+                poll = targ.get("k") in ("ctor", "cast", "int") and tc == [0] and not any(x.get("k") == "var" for x in walk(targ))
+                if poll or (targ.get("k") in ("ctor", "cast", "int") and len(tc) == 1 and tc[0] is not None and 0 <= tc[0] <= 60000 and not any(x.get("k") == "var" for x in walk(targ))):
+                    ok = True
                 r.expect(ok, f, e, "unbounded wait: %s" % last(nn["callee"]), "%s calls %s with the timeout `%s`, which is not taken from the client's configured timeouts" % (last(f.name), last(nn["callee"]), src),
                          okdesc="%s: %s(…, configured timeout)" % (last(f.name), last(nn["callee"])))
                 r.instance()
-                r.expect(not la.holds(f, e, M), f, e, "blocking call under _mutex: %s" % last(nn["callee"]), "%s holds HttpClient::_mutex across the blocking %s: lease releases and other hosts' requests stall for the whole timeout"
+                r.expect(poll or not la.holds(f, e, M), f, e, "blocking call under _mutex: %s" % last(nn["callee"]), "%s holds HttpClient::_mutex across the blocking %s: lease releases and other hosts' requests stall for the whole timeout"
                          % (last(f.name), last(nn["callee"])), okdesc="%s without _mutex" % last(nn["callee"]))
     if n < 3:
         raise AnalysisBroken("only %d blocking transport calls found in http_client.hpp (floor 3)" % n)
@@ -462,7 +490,47 @@ def r7(ctx, r):
 
 
 def r8(ctx, r):
-    """the close signal is recognised: token-wise, case-folded `close`; HTTP/1.0 default"""
+    """the close signal is recognised: token-wise, case-folded `close`; HTTP/1.0 default; in ANY Connection field line"""
+    # the value responseRequestsClose looks at holds every Connection field line: a repeated line is appended, not assigned
+    ph = fn(ctx, HC, "parseHeaderBlock", HCF)
+    plain = [e for e in ph.stmts() if asg(e.node) and strip_casts(asg(e.node)[0]).get("k") == "opcall" and strip_casts(asg(e.node)[0]).get("op") == "[]" and "headers" in show(asg(e.node)[0])]
+    apps = [e for e in ph.stmts() if e.node.get("k") == "mcall" and last(e.node.get("callee", "")) in ("append", "operator+=") and "second" in show(e.node.get("obj") or {})] + \
+           [e for e in ph.stmts() if e.node.get("k") == "opcall" and e.node.get("op") == "+=" and "second" in show(e.node["args"][0])]
+    r.instance()
+    if not plain:
+        raise AnalysisBroken("parseHeaderBlock: header store not found")
+    okc = False
+    for a_ in apps:
+        fx = dominating_facts(ph, a_)
+        is_conn = any(t and any(x.get("k") == "str" and x.get("v", "").lower() == "connection" for x in walk(c)) for (c, t) in fx)
+        found = any(("end()" in show(c)) and ((common.cmp_parts(strip_casts(c)) or ("",))[0] == "!=") == t for (c, t) in fx)
+        if is_conn and found:
+            okc = True
+    # … and the plain (last-wins) store is not reachable for a repeated Connection line
+    r.expect(okc, ph, plain[0], "repeated Connection line overwrites the earlier one", "parseHeaderBlock stores every field with `headers[name] = value` (last wins): `Connection: close` followed by `Connection: keep-alive` "
+             "is treated as persistent — the close signal is lost and the next request goes out on a connection the server announced it would close (RFC 9110 §5.3: repeated lines are one list)",
+             okdesc="repeated Connection lines are combined into one list")
+    # a cached connection is handed to a request only after the transport was asked whether the peer has closed it / sent
+    # anything since the last exchange (a close that arrives after a complete keep-alive response is seen by nobody else)
+    aq = fn(ctx, HC, "acquireConnection", HCF)
+    probes = getattr(ctx, "_c17_probes", None)
+    if probes is None:
+        raise AnalysisBroken("probe summaries not collected (C17-R5 did not run)")
+    crets = [e for e in common.returns(aq) if "second.id" in show(e.node) or ".id" in show(e.node) and "it->" in show(e.node)]
+    if not crets:
+        raise AnalysisBroken("acquireConnection: cached return not found")
+    for e in crets:
+        r.instance()
+        okp = False
+        for (c, t) in dominating_facts(aq, e):
+            c0 = strip_casts(c)
+            if c0.get("k") == "mcall" and c0.get("callee") in probes:
+                kind = probes[c0["callee"]]
+                if (kind == "quiet" and t) or (kind == "pending" and not t):
+                    okp = True
+        r.expect(okp, aq, e, "cached connection handed out unchecked", "acquireConnection returns a cached session without having asked the transport (zero-timeout receive) whether the peer closed it or sent anything since "
+                 "the last exchange: a server that closes right after a complete keep-alive response leaves a dead session in the cache — the next request is 'sent' on it, fails as possibly-sent and (for a POST) is "
+                 "not retried although not a byte reached the server", okdesc="cached session probed before reuse")
     f = fn(ctx, HC, "responseRequestsClose", HCF)
     common.require_names(f, ["token", "resp"])
     cb = [b for b in f.blocks.values() if b.cond is not None and common.cmp_parts(b.cond) and common.cmp_parts(b.cond)[0] == "==" and key_of(strip_views(common.cmp_parts(b.cond)[1])) == "token" and
